@@ -56,6 +56,9 @@ structure DStop (s : Nat) (st : Stream) (cl : Client) : Prop where
   flags_start : (pendingFrom cl.pc).isSome = true → cl.aborting = false ∧ cl.startFailed = false
   flags_excl : cl.startFailed = true → cl.aborting = false
   flags_err : afterErrStop cl.pc = true → cl.startFailed = true
+  /-- a sink that has ended in an acquisition nobody disturbed has ended normally: after its final, empty read -/
+  ended : (st.snk.pc = .exit ∨ st.snk.pc = .done) → 0 < st.sto.run →
+      st.sto.drained = true ∨ st.sto.disturbed = true ∨ (2 ≤ stage cl.pc s ∧ stage cl.pc s ≤ 4)
 
 def DStopP (s : Nat) (st : Stream) (cl : Client) : Prop :=
   st.cam.failAt = none → st.cam.emptyEvery = 0 → cl.misused = false → 0 < st.F → DStop s st cl
